@@ -551,6 +551,46 @@ def event_fields(prog):
     return out
 
 
+# direct bases whose constructor each package class must run (confirmed by reading; bases without state to set up - object,
+# socketserver.ThreadingMixIn, xmlrpc.client.ServerProxy whose constructor the JSON proxy deliberately replaces - are not listed)
+BASE_INITS = {
+    "SimpleJSONRPCServer.SimpleJSONRPCDispatcher": ["SimpleXMLRPCDispatcher"],
+    "SimpleJSONRPCServer.SimpleJSONRPCServer": ["SimpleJSONRPCDispatcher", "socketserver.TCPServer"],
+    "SimpleJSONRPCServer.PooledJSONRPCServer": ["SimpleJSONRPCServer"],
+    "SimpleJSONRPCServer.CGIJSONRPCRequestHandler": ["SimpleJSONRPCDispatcher", "CGIXMLRPCRequestHandler"],
+    "jsonrpc.Transport": ["TransportMixIn", "XMLTransport"],
+    "jsonrpc.SafeTransport": ["TransportMixIn", "XMLSafeTransport"],
+    "jsonrpc.UnixTransport": ["TransportMixIn", "XMLTransport"],
+    "jsonrpc.UnixHTTPConnection": ["HTTPConnection"],
+    "jsonrpc.TransportError": ["ProtocolError"],
+}
+
+
+def check_base_constructors(ck, rule, classes=None):
+    """Every normal path through the constructor of a package class runs the constructor of each listed direct base
+    (spelled Base.__init__(self, ...) or, for a single base, super().__init__(...))."""
+    from vlib.flow import reachable_avoiding
+    prog = ck.prog
+    n_ = 0
+    for cfq, bases in sorted(BASE_INITS.items()):
+        if classes is not None and cfq not in classes:
+            continue
+        mod, cname = cfq.split(".", 1)
+        fi = prog.funcs.get("%s.%s.__init__" % (mod, cname))
+        if fi is None:
+            raise AnalysisError("anchor vanished: %s.__init__" % cfq)
+        g = cfg_of(fi)
+        for b in bases:
+            calls = set(n.id for n in g.live_nodes() for c in node_calls(n)
+                        if dump(c.func) in ("%s.__init__" % b, "super().__init__", "super(%s, self).__init__" % cname))
+            reach = reachable_avoiding(g, g.entry.id, calls, lambda l: l != "exc")
+            n_ += 1
+            ck.require(bool(calls) and g.return_exit.id not in reach, rule, "%s.__init__: runs %s.__init__" % (cfq, b), "on every normal path",
+                       "the constructor of %s can finish without having run %s.__init__: the state that base sets up (configuration, "
+                       "header stack, connection cache, dispatcher tables, socket) is missing from the object" % (cfq, b), q.loc(fi, fi.node))
+    return n_
+
+
 def check_config_forwarding(ck, rule):
     """Every constructor of the package that receives a `config` hands that very object to each package constructor it
     calls which also takes a `config` (base-class __init__ spelled Base.__init__(self, ...), super().__init__(...), or an
@@ -680,3 +720,32 @@ def base_exception_layers(prog):
     return {"_dispatch (around the method call)": catches_base(fdis, inv),
             "_marshaled_single_dispatch (around the dispatch)": catches_base(fsd, disp_calls),
             "do_POST (around the whole request)": catches_base(fpo, post_calls)}
+
+
+CONFIG_DEFAULTS = {"version": 2.0, "content_type": "application/json-rpc", "user_agent": None, "use_jsonclass": True,
+                   "serialize_method": "_serialize", "ignore_attribute": "_ignore", "serialize_handlers": None}
+
+
+def check_config_defaults(ck, rule, fields):
+    """The documented defaults of Config(...) - what an application that passes no configuration gets, through the shared
+    DEFAULT object built by a bare `Config()` - folded from the signature of Config.__init__."""
+    prog = ck.prog
+    fi = prog.func("config", "Config.__init__")
+    a = fi.node.args
+    names = [x.arg for x in a.args]
+    defaults = dict(zip(names[len(names) - len(a.defaults):], a.defaults))
+    for f in fields:
+        d = defaults.get(f)
+        try:
+            v = prog.const("config", d) if d is not None else "<no default>"
+        except AnalysisError:
+            v = "<not a constant>"
+        want = CONFIG_DEFAULTS[f]
+        okk = (v is None and want is None) or (v is not None and type(v) is type(want) and v == want)
+        ck.require(okk, rule, "config.Config.__init__: default of %s" % f, "%r" % (want,),
+                   "Config() sets %s to %r by default; the documented default, which every object built without an explicit configuration "
+                   "relies on, is %r" % (f, v, want), q.loc(fi, d if d is not None else fi.node))
+    dflt = prog.modules["config"].assigns.get("DEFAULT")
+    okk = isinstance(dflt, ast.Call) and dump(dflt.func) == "Config" and not dflt.args and not dflt.keywords
+    ck.require(okk, rule, "config.DEFAULT", "Config() with the documented defaults",
+               "the shared default configuration is built as `%s`, not as a bare Config()" % (dump(dflt) if dflt is not None else None), "jsonrpclib/config.py")
